@@ -143,3 +143,57 @@ func JSName(directive string) string { return soyjs.PrintDirectives[directive].N
 
 // JSCancels is the CancelAutoescape flag of the real soyjs table.
 func JSCancels(directive string) bool { return soyjs.PrintDirectives[directive].CancelAutoescape }
+
+// tlcGate bounds the number of TLC JVMs running at once (each needs a few
+// cores; the replay grids run at the same time).
+var tlcGate = make(chan struct{}, 4)
+
+// RunTLC runs TLC through the gate.
+func RunTLC(ctx *core.Ctx, o core.TLCOpts) (*core.TLCResult, error) {
+	tlcGate <- struct{}{}
+	defer func() { <-tlcGate }()
+	return ctx.RunTLC(o)
+}
+
+// QuickSubset picks, in the quick tier, k of the named deviations (rotating
+// with the seed); the thorough tier runs them all.
+func QuickSubset(ctx *core.Ctx, names []string, k int) []string {
+	if ctx.Thorough() || k >= len(names) {
+		return names
+	}
+	var out []string
+	for i := 0; i < k; i++ {
+		out = append(out, names[(int(ctx.Seed)*k+i)%len(names)])
+	}
+	return out
+}
+
+// Reporter de-duplicates violation reports: after the first few of a
+// signature only a count is kept (building a replay case is expensive and a
+// listed finding can match hundreds of thousands of cases).
+type Reporter struct {
+	mu    sync.Mutex
+	count map[string]int
+}
+
+// NewReporter returns an empty reporter.
+func NewReporter() *Reporter { return &Reporter{count: map[string]int{}} }
+
+// First reports whether a full report should still be made for sig.
+func (r *Reporter) First(sig core.Sig) bool {
+	r.mu.Lock()
+	defer r.mu.Unlock()
+	r.count[sig.String()]++
+	return r.count[sig.String()] <= 4
+}
+
+// Counts returns the number of cases met per signature.
+func (r *Reporter) Counts() map[string]int {
+	r.mu.Lock()
+	defer r.mu.Unlock()
+	m := map[string]int{}
+	for k, v := range r.count {
+		m[k] = v
+	}
+	return m
+}
